@@ -114,6 +114,7 @@ TReexec == /\ Quiescent /\ ret = NoRet
            /\ \/ Ev("Replay") /\ (Check = "C11" => Rec[l].a = Rec[l].b)
               \/ Ev("Perm") /\ (Check = "C11" => Iso(Rec[l]))
               \/ Ev("Panic") /\ Check # "C02"          \* registration must terminate normally: C02's statement
+              \/ Ev("Decoded") /\ (Check = "C01" => ("ok" \in DOMAIN Rec[l].res /\ WellFormed(Rec[l].res.ok[1]) /\ ResolveOK(Rec[l].res.ok[1])))
            /\ l' = l + 1 /\ UNCHANGED <<info, table, types, stack, evals, ret, prev, seen>>
 
 TNext == TReset \/ TBegin \/ TChild \/ TComplete \/ TReturn \/ TFinal \/ TReexec
